@@ -31,7 +31,8 @@ Definition read_key (T : terms) (s : list Z) : res (key * terms * list Z) :=
   | None => Err IOErr                                     (* read_fmt: short read *)
   | Some len =>
       let s' := skipn 4 s in
-      let n := Z.to_nat (if len =? 0 then 4 else len) in
+      (* fp.read(n) never returns more than what is left; min keeps the nat small under vm_compute *)
+      let n := Z.to_nat (Z.min (if len =? 0 then 4 else len) (Z.of_nat (length s'))) in
       let k := firstn n s' in
       let T' := if (len =? 0) && negb (mem k T) then k :: T else T in
       Ok (k, T', skipn n s')
